@@ -80,6 +80,9 @@ def _unit_argument(mod, f, seq_param=None, scanner=False):
                     work.append(h)
     funcs = [f] + list(helpers.values())
     for fn in funcs:
+        for lp in walk_local(fn):
+            if isinstance(lp, (ast.For, ast.While)) and any(isinstance(x, (ast.For, ast.While)) and x is not lp for x in ast.walk(lp)):
+                return False, f"in {fn.name} a loop nested in the scanning loop reads ahead over an unbounded stretch of the input, so (state x unit) is not the whole domain"
         params = {a.arg for a in fn.args.args}
         loopvars = {n.id for st in walk_local(fn) if isinstance(st, (ast.For, ast.comprehension)) for n in ast.walk(st.target) if isinstance(n, ast.Name)}
         state = {t.id for st in walk_local(fn) if isinstance(st, ast.Assign) for t in st.targets if isinstance(t, ast.Name)
@@ -335,8 +338,7 @@ def _check_utf7_decoder(ctx):
     denv = module_env(mod)
     funcs = FollowModule(mod, dict(COMPAT), denv)
     funcs["modified_unbase64"] = lambda b: "<" + bytes(b).decode("ascii") + ">"
-    funcs["memoryview"] = lambda b: bytes(b)
-    funcs["memory_cast"] = lambda mv, fmt: [bytes(mv)[i:i + 1] for i in range(len(bytes(mv)))]       # memoryview(b).cast('c'): one-byte bytes objects
+    funcs["memory_cast"] = lambda mv, fmt: mv.cast(fmt)       # imap4.memory_cast is memoryview.cast: units become one-byte bytes objects, slices stay memoryviews
     dec = interp(f, funcs, denv)
     ex_d7, why_d7 = _unit_argument(mod, f, f.args.args[0].arg, scanner=True)
     if not ex_d7:
